@@ -43,6 +43,16 @@ package policer
 //@   property C26
 //@   callee (*policer.Policer).dropRedundantLocalObject
 //@   requires [no_rule_needs_local_copy] !c.needLocalCopy
+//@   requires [placement_pass_was_not_interrupted] ctxPolledLive(0)
+// A placement pass stops early when the context is cancelled and then leaves needLocalCopy
+// unset without having asked the remaining nodes: whatever was polled before the pass is
+// stale after it, so the decision must poll the context again (cancellation is monotone: a
+// poll answering "not cancelled" after the passes means none of them was cut short).
+//@ callrule a_pass_may_be_cut_short in (*Policer).processObject
+//@   property C26
+//@   callee (*policer.Policer).processNodes
+//@   assigns ctxPolledLive
+//@   defines true
 //@ callrule decision_reads_are_pure in (*Policer).processObject
 //@   property C26
 //@   callee *).IsLocalNodeInNetmap, (*policer.nodeCache).atLeastOneHolder, (policer.nodeCache).atLeastOneHolder
